@@ -317,28 +317,6 @@ func (*reader).Consume alt damaged
     requires rdDamaged(r) && 1 <= maxCount && maxCount <= 1048576
     assigns r.index, r.indexLastAccess, r.messages, r.messagesInuse
 
-// C14: a candidate whose read fails is never skipped - neither by the key filter nor by the offset filter: while the
-// loop runs no read has failed (otherwise the call has returned that error), under the weaker invariant rdDamaged
-func (*reader).GetByKey alt damaged
-    flags locks only_panic only_errs noframe
-    requires[locks] rdLocksFree() && ixLocksFree()
-    requires rdDamaged(r) && r.params.Keys
-    assigns r.index, r.indexLastAccess, r.messages, r.messagesInuse
-    ensures[errs_readfail] (exists m *message.Reader :: gFails[m] != old(gFails)[m]) ==> err != nil
-    loop 1
-      invariant[errs_nofail] forall m *message.Reader :: gFails[m] == old(gFails)[m]
-      invariant[panic_idx]   -1 <= i && i < len(positions) && messages != nil
-
-func (*reader).ConsumeByKey alt damaged
-    flags locks only_panic only_errs noframe
-    requires[locks] rdLocksFree() && ixLocksFree()
-    requires rdDamaged(r) && r.params.Keys && 1 <= maxCount && maxCount <= 1048576
-    assigns r.index, r.indexLastAccess, r.messages, r.messagesInuse
-    ensures[errs_readfail] (exists m *message.Reader :: gFails[m] != old(gFails)[m]) ==> err != nil
-    loop 1
-      invariant[errs_nofail] forall m *message.Reader :: gFails[m] == old(gFails)[m]
-      invariant[panic_idx]   -1 <= rangeindex && rangeindex < len(positions) && len(msgs) < maxCount && messages != nil
-
 func (*reader).Get
     flags locks
     requires[locks] rdLocksFree() && ixLocksFree()
